@@ -260,7 +260,7 @@ PROPS = {
         "rule": "byte strings decoded in an isolated worker process (address space limited to 4 GiB): short inputs declaring huge lengths (1/2/3 length bytes FF.., every format, nesting "
                 "depth 0..64), long valid items (64 KiB..256 KiB quick / 4 MiB thorough of A, B, BOOLEAN, I1, I2, U8, F4 and lists of small items), truncated items with patched outer "
                 "length, nested chains up to the depth cap, wide lists of lists, random bytes with and without a correct frame. Oracle: the call returns normally (an escaping panic or a "
-                "process death is a violation) and the runtime.MemStats.TotalAlloc delta around the call is <= 256 KiB + 4096 x len(input). Non-trivial: the outer length is correct and "
+                "process death is a violation) and the runtime.MemStats.TotalAlloc delta around the call is <= 256 KiB + 2048 x len(input). Non-trivial: the outer length is correct and "
                 "some declared item length exceeds the bytes that remain, or the input is longer than 64 KiB.",
         "notes": ["generators cap list nesting at 2000 (decoding time is quadratic in depth); the open known finding on extreme nesting (fatal stack overflow at ~10M levels) is reproduced by TestC07Known on every run",
                   "worst legitimate allocation ratio observed is far below the limit (see labels alloc-ratio>=256 / >=1024)"],
@@ -317,7 +317,7 @@ MANIFEST_TEXT = {
         "technique": "fuzzing with structured hostile-length generators (rapid) in an isolated worker process with an address-space limit + native coverage-guided go fuzzing (thorough); totality and allocation-bound oracle",
         "level_text": "Generated hostile and long inputs are decoded in a separate process so that fatal runtime errors are observable; total allocation is measured per call and compared with a "
                       "fixed linear bound. The open known finding on extreme nesting is reproduced on every run and excluded from the generators by a depth cap.",
-        "level_note": "Limits: 4 GiB address space, linear bound 256 KiB + 4096 B per input byte (legitimate use stays about one order of magnitude below), nesting cap 2000.",
+        "level_note": "Limits: 4 GiB address space, linear bound 256 KiB + 2048 B per input byte (legitimate use stays about one order of magnitude below), nesting cap 2000.",
     },
     "C19": {
         "technique": "metamorphic " + _PBT + ": Parse(t1+sep+t2+...) must equal the concatenation of Parse(ti), warnings modulo the known position shift",
